@@ -12,8 +12,12 @@ def run(tier, seed):
         "need_actions": ["Api", "ApiLoop", "IterTop", "Wait", "TimeoutProcess", "RunCallback", "LoopReturn"],
         "gen": [
             # all timer histories of depth 3 (4) over a one-shot, a persistent and an I/O+timeout event
-            dict(name="C01_exh", consts=ec.consts({1, 3, 4}, T_ACTS - {"once", "act"}, 3 if q else 4, durs=(0, 1, 2)),
+            dict(name="C01_exh", consts=ec.consts({1, 3, 4}, T_ACTS - {"once", "act"}, 3, durs=(0, 1, 2)),
                  ticks=(1000,) if q else (1000, 7000)),
+        ] + ([] if q else [
+            # depth 4 on the persistent timer alone (the depth-4 space over three events does not finish in the time budget)
+            dict(name="C01_exh4", consts=ec.consts({4}, T_ACTS - {"once", "act"}, 4, durs=(0, 1, 2)), ticks=(1000,)),
+        ]) + [
             # long random histories: equal, zero, sub-ms and huge durations, clock jumps, early/late wake-ups
             dict(name="C01_rand", consts=ec.consts({1, 3, 4, 5}, T_ACTS | {"feed", "drain", "flags"}, 30 if q else 50,
                                                    durs=(0, 1, 2, 3, H)),
